@@ -768,20 +768,26 @@ pub fn generate_code(context: &Context) -> Result<u32, &'static str>
             next_reference_id.load(std::sync::atomic::Ordering::Relaxed)
         );
 
-        let reference_updates = match process_references::<
+        let reference_updates_result = process_references::<
             InsertReferencesProcessor,
             Arc<AtomicU32>,
             InsertReferencesResult,
             InsertReferencesResult,
-        >(context, Some(next_reference_id), &finder)
+        >(context, Some(next_reference_id.clone()), &finder);
+
+        /*
+         * Every ID taken from the shared counter may be in the code now, whether or not the pass
+         * completed (it may have been interrupted, or a file may have failed after IDs were taken
+         * for it), so always record the counter itself as the next reference ID.
+         */
+        let cachable_reference_id = next_reference_id.load(std::sync::atomic::Ordering::Relaxed);
+        context.cache_next_reference_id(cachable_reference_id, context.config.config_dir.as_str());
+
+        let reference_updates = match reference_updates_result
         {
             Some(r) => r,
             None => return Err("Failed to insert references"),
         };
-
-        let cachable_reference_id =
-            calculated_next_reference_id + (reference_updates.num_inserted_references as u32);
-        context.cache_next_reference_id(cachable_reference_id, context.config.config_dir.as_str());
 
         info!(
             "[ref: 21] Num. inserted reference(s): {}",
